@@ -95,8 +95,10 @@ pub mod c07;
 pub mod c15;
 pub mod c12;
 pub mod c10;
+pub mod c10_ref;
 pub mod c06;
 pub mod c14;
+pub mod c14_raise;
 pub mod c13;
 pub mod c17;
 pub mod instr_io;
